@@ -33,6 +33,7 @@ class Reactor(tops.Component):
         self.overlay = dict(OVERLAY)
         self.overlay.update({"pkg/verifsched/vsched.go": "vsched/vsched.go",
                              "pkg/verifsys/vsys.go": "vsys/vsys.go",
+                             "pkg/netpoll/zz_verif.go": "netpoll/zz_verif.go",
                              "zz_verif_reactor.go": "gnet/zz_verif_reactor.go"})
 
     def prepare(self):
